@@ -233,6 +233,7 @@ func genC07(r *rand.Rand, tier string, idx int) *World {
 	w.Cfg.TemplateEdits = false
 	w.Extra["failSteps"] = pick(r, "20", "40", "80")
 	w.Extra["staleStatus"] = pick(r, "0", "0", "1")
+	w.Extra["terminating"] = pick(r, "", "", "", "", "active", "canary")
 	c := w.EDS[0].Strategy.Canary
 	if c.Duration != "" {
 		c.Duration = pick(r, "1m", "3m", "10m", "10m")
@@ -260,6 +261,20 @@ func bodyC07(s *Sim) {
 	s.Chaos()
 	// make the canary fail
 	e := s.Store.GetEDS(def.NS, def.Name)
+	if tm := s.W.Extra["terminating"]; tm != "" && e != nil && e.Status.Canary != nil {
+		// somebody deletes the active (or the canary) replica set while a finalizer holds it: it is
+		// Terminating, but it still exists while the canary fails
+		name := e.Status.ActiveReplicaSet
+		if tm == "canary" {
+			name = e.Status.Canary.ReplicaSet
+		}
+		if r := s.Store.GetERS(def.NS, name); r != nil && r.DeletionTimestamp == nil {
+			now := metav1.NewTime(s.Now())
+			r.DeletionTimestamp = &now
+			r.Finalizers = append(r.Finalizers, "example.com/hold") // held by a finalizer nobody removes: Terminating for the rest of the run
+			s.Store.ForceUpdate(r)
+		}
+	}
 	if e == nil || e.Status.Canary == nil {
 		s.Probe("c07.no-canary-at-fail-time")
 	} else {
@@ -669,8 +684,23 @@ func bodyC19(s *Sim) {
 			}
 		}
 	}
+	if cmd == "canary-validate" && canaryERS != "" && s.rngEnv.IntN(3) == 0 && e.Annotations[edsv1.ExtendedDaemonSetCanaryValidAnnotationKey] == "" {
+		// left over from an earlier, promoted canary whose replica set is long gone
+		s.userAnnotate(def.NS, def.Name, edsv1.ExtendedDaemonSetCanaryValidAnnotationKey, def.Name+"-gone1")
+		before = s.Store.GetEDS(def.NS, def.Name).DeepCopy()
+	}
 	t := s.RunCLI(cmd, key)
 	if t.Err != nil {
+		// refused: only legitimate when the precondition does not hold
+		cur := s.Store.GetEDS(def.NS, def.Name)
+		if cur != nil && cur.Status.Canary != nil && cur.Status.Canary.ReplicaSet == canaryERS && canaryERS != "" && !t.Faulted && !t.Conflict {
+			switch {
+			case cmd == "canary-validate" && cur.Annotations[edsv1.ExtendedDaemonSetCanaryValidAnnotationKey] != canaryERS:
+				s.Violate("C19", "refusal", "validate", "canary-validate refused (%v) although %s is the running canary and was not validated before", t.Err, canaryERS)
+			case cmd == "canary-fail":
+				s.Violate("C19", "refusal", "fail", "canary-fail refused (%v) although %s is the running canary", t.Err, canaryERS)
+			}
+		}
 		return
 	}
 	s.Stats.NonVacuous["C19.obeyed"]++
@@ -1071,7 +1101,7 @@ func genC04(r *rand.Rand, tier string, idx int) *World {
 	}
 	w := genHistory(r, tier, o)
 	w.Extra["c02prop"] = "C04"
-	w.Extra["c04end"] = pick(r, "hold", "hold", "promote")
+	w.Extra["c04end"] = pick(r, "hold", "hold", "promote", "revert")
 	w.Cfg.StrategyEdits = chance(r, 0.5)
 	if c := w.EDS[0].Strategy.Canary; c != nil && chance(r, 0.2) {
 		c.Replicas = pick(r, "0", "0%") // a canary that owns no node
@@ -1148,6 +1178,37 @@ func bodyC04(s *Sim) {
 			}
 		}
 	}
+	if s.W.Extra["c04end"] == "revert" && e != nil && e.Spec.Strategy.Canary != nil && e.Status.ActiveReplicaSet != "" {
+		// A canary is promoted; before its rollout is over (and more than five minutes after the
+		// old replica set had become active) the template is reverted: the old replica set, which
+		// still has pods, is the canary now, gets the canary label on its canary nodes and is
+		// promoted again.
+		key := types.NamespacedName{Namespace: def.NS, Name: def.Name}
+		if act := s.Store.GetERS(def.NS, e.Status.ActiveReplicaSet); act != nil {
+			prev := letterOfTpl(&act.Spec.Template)
+			for _, k := range []string{edsv1.ExtendedDaemonSetCanaryPausedAnnotationKey, edsv1.ExtendedDaemonSetRolloutFrozenAnnotationKey, edsv1.ExtendedDaemonSetRollingUpdatePausedAnnotationKey} {
+				s.userAnnotate(def.NS, def.Name, k, "-")
+			}
+			if e.Status.Canary == nil || letterOfTpl(&e.Spec.Template) == prev {
+				for _, l := range sortedKeys(def.Templates) {
+					if l != prev {
+						s.userSetTemplate(def.NS, def.Name, l)
+						break
+					}
+				}
+				s.Round(r)
+				s.Round(r)
+			}
+			s.RunCLI("canary-validate", key)
+			s.Round(r)
+			s.Advance(6 * time.Minute)
+			s.Round(r)
+			s.userSetTemplate(def.NS, def.Name, prev)
+			s.Round(r)
+			s.Round(r)
+			s.Stats.NonVacuous["C04.reverted"]++
+		}
+	}
 	s.Quiesce()
 	// after promotion no pod of the active replica set carries the canary label
 	e = s.Store.GetEDS(def.NS, def.Name)
@@ -1220,12 +1281,12 @@ func bodyC05(s *Sim) {
 	s.RunTask(CtrlEDS, key)
 	s.Chaos()
 	if s.W.Extra["dropActive"] == "2" {
-		// a foreground deletion of the active replica set: it is Terminating but still exists
+		// the active replica set is deleted while a finalizer holds it: it is Terminating but still exists
 		if e := s.Store.GetEDS(def.NS, def.Name); e != nil && e.Status.ActiveReplicaSet != "" {
 			if r := s.Store.GetERS(def.NS, e.Status.ActiveReplicaSet); r != nil {
 				now := metav1.NewTime(s.Now())
 				r.DeletionTimestamp = &now
-				r.Finalizers = append(r.Finalizers, "foregroundDeletion")
+				r.Finalizers = append(r.Finalizers, "example.com/hold") // held by a finalizer nobody removes: Terminating for the rest of the run
 				s.Store.ForceUpdate(r)
 			}
 		}
@@ -1273,7 +1334,7 @@ func bodyC05(s *Sim) {
 func init() {
 	register(&Profile{Name: "C05", Decide: []string{"C05"}, Quick: 2500, Thorough: 120000, Gen: genC05, Body: bodyC05,
 		NonVacuous: []string{"C05.switch"}, Chunk: 50,
-		Rule: "A canary is started through the real reconcilers (strategy auto or manual, duration 1-10 min, noRestartsDuration unset/0/positive); then a focused seeded phase of kubectl-eds canary pause/unpause/validate/fail, user edits of the canary-paused / canary-unpaused / canary-valid annotations, container restarts, replica-set syncs, ExtendedDaemonSet reconciles, stalls and clock jumps to boundary instants (creation+duration, last restart+noRestartsDuration, each at -1s, exactly, +1ns, +1s), optionally the recorded active replica set is deleted (at once, or in the foreground so that it stays Terminating); finally the clock passes the end of the duration and the ExtendedDaemonSet is reconciled. Every change of status.activeReplicaSet is judged against the promotion rule. " + histRule})
+		Rule: "A canary is started through the real reconcilers (strategy auto or manual, duration 1-10 min, noRestartsDuration unset/0/positive); then a focused seeded phase of kubectl-eds canary pause/unpause/validate/fail, user edits of the canary-paused / canary-unpaused / canary-valid annotations, container restarts, replica-set syncs, ExtendedDaemonSet reconciles, stalls and clock jumps to boundary instants (creation+duration, last restart+noRestartsDuration, each at -1s, exactly, +1ns, +1s), optionally the recorded active replica set is deleted (at once, or held by a finalizer so that it stays Terminating); finally the clock passes the end of the duration and the ExtendedDaemonSet is reconciled. Every change of status.activeReplicaSet is judged against the promotion rule. " + histRule})
 }
 
 // C13: template edit histories, with every third run a failed-canary history (clean-up guards
@@ -1290,6 +1351,10 @@ func init() {
 		w := gen(r, tier, idx)
 		if chance(r, 0.25) {
 			w.Extra["staleHash"] = pick(r, "A", "B", "C", "x")
+		}
+		if chance(r, 0.25) {
+			w.Extra["templateName"] = "agent"
+			w.Extra["namedEdits"] = "1"
 		}
 		return w
 	}
